@@ -1817,6 +1817,13 @@ class NNDescent:
         -------
             None
         """
+        if not hasattr(self, "_neighbor_graph"):
+            # fail before touching any state: update() re-runs NN-descent from
+            # the neighbor graph, which compress_index() discards
+            raise AttributeError(
+                "Cannot update a compressed index: 'NNDescent' object has no "
+                "attribute '_neighbor_graph'"
+            )
         current_random_state = check_random_state(self.random_state)
         rng_state = current_random_state.randint(INT32_MIN, INT32_MAX, 3).astype(
             np.int64
